@@ -7,16 +7,7 @@ import core
 LEVEL = "exploration"
 
 
-def m_cl23_call_of_parameter(v, params):
-    # cl23 / cl23.1 / cl24: the optimiser does not terminate (stack overflow after ~50 s) on a call form whose head is
-    # a parameter or other variable with no arguments, e.g. (let ((S P4)) (P1)), produced by token deletions
-    t = v["text"]
-    new = any(s in t for s in ("*standard-cl-23*", "*standard-cl-23.1*", "*standard-cl-24*"))
-    return v["kind"] in ("entry-point-timeout", "entry-point-abort") and v["entry"] in ("compile", "run", "brun") and new \
-        and re.search(r"\(\s*[PLSZ]\d+\s*\)", t) is not None
-
-
-MATCHERS = {"cl23_call_of_parameter": m_cl23_call_of_parameter}
+MATCHERS = {}
 
 
 def _drive(acc, n):
